@@ -14,7 +14,7 @@ pub struct ZmqCodec { _p: u8 }
 pub struct FramedRead<T, U> { pub log: Ghost<Seq<Option<CodecResult<Message>>>>, pub _t: core::marker::PhantomData<(T, U)> }
 /// asynchronous-codec FramedWrite / futures SinkExt: `feed` only buffers, `flush` puts the buffered items on the
 /// wire, `send` = feed + flush.  Ghost logs: `sent` = flushed (on the wire), `pending` = buffered only.
-pub struct FramedWrite<T, U> { pub sent: Ghost<Seq<Message>>, pub pending: Ghost<Seq<Message>>, pub _t: core::marker::PhantomData<(T, U)> }
+pub struct FramedWrite<T, U> { pub sent: Ghost<Seq<Message>>, pub pending: Ghost<Seq<Message>>, pub tried: Ghost<nat>, pub _t: core::marker::PhantomData<(T, U)> }
 impl<T, U> FramedRead<T, U> {
     #[verifier::external_body]
     pub fn next(&mut self) -> (r: Option<CodecResult<Message>>)
@@ -22,21 +22,25 @@ impl<T, U> FramedRead<T, U> {
     { unimplemented!() }
 }
 impl<T, U> FramedWrite<T, U> {
+    /// `tried` counts the send / feed calls made on this writer, successful or not
     #[verifier::external_body]
     pub fn send(&mut self, item: Message) -> (r: Result<(), CodecError>)
         ensures
+            final(self).tried@ == old(self).tried@ + 1,
             r is Ok ==> final(self).sent@ == old(self).sent@ + old(self).pending@.push(item) && final(self).pending@ == Seq::<Message>::empty(),
             r is Err ==> final(self).sent@ == old(self).sent@,
     { unimplemented!() }
     #[verifier::external_body]
     pub fn feed(&mut self, item: Message) -> (r: Result<(), CodecError>)
         ensures
+            final(self).tried@ == old(self).tried@ + 1,
             final(self).sent@ == old(self).sent@,
             r is Ok ==> final(self).pending@ == old(self).pending@.push(item),
     { unimplemented!() }
     #[verifier::external_body]
     pub fn flush(&mut self) -> (r: Result<(), CodecError>)
         ensures
+            final(self).tried@ == old(self).tried@,
             r is Ok ==> final(self).sent@ == old(self).sent@ + old(self).pending@ && final(self).pending@ == Seq::<Message>::empty(),
             r is Err ==> final(self).sent@ == old(self).sent@,
     { unimplemented!() }
